@@ -18,7 +18,7 @@ def _alarm(signum, frame):
 _MSG_RE = re.compile(r'^Error on line (\d+)(?:, column (\d+))?: ')
 
 
-def read_bytes(data, reader_factory=None, limit_s=10):
+def read_bytes(data, reader_factory=None, limit_s=10, abstract=True):
     """(recs, end, line, col, msgok) of iterating the real reader over data."""
     from pydiffx import DiffXReader
     from pydiffx.errors import DiffXParseError
@@ -32,7 +32,7 @@ def read_bytes(data, reader_factory=None, limit_s=10):
     try:
         rd = reader_factory(io.BytesIO(data)) if reader_factory else DiffXReader(io.BytesIO(data))
         for r in rd:
-            recs.append(absrec(r))
+            recs.append(absrec(r) if abstract else None)     # contract mode does not look at records
     except DiffXParseError as e:
         end = 'parse'
         line = e.linenum if isinstance(e.linenum, int) else -2
@@ -82,3 +82,60 @@ def dom_load(data):
         signal.setitimer(signal.ITIMER_REAL, 0)
         signal.signal(signal.SIGALRM, old)
     return {'end': end, 'closed': bool(st.closed)}
+
+
+class IOLog(object):
+    """A stream that logs every operation the reader performs on it (Trace_ReaderIO).  read and seek are the
+    two operations ReaderIO.tla models; any other method still works but marks the log as not modelled."""
+
+    def __init__(self, data):
+        self._fp = io.BytesIO(data)
+        self.ev = []
+
+    def _e(self, op, n=0, got=0, off=0, sec=''):
+        self.ev.append({'op': op, 'n': n, 'got': got, 'pos': self._fp.tell(), 'off': off, 'sec': sec})
+
+    def read(self, n=-1):
+        pos = self._fp.tell()
+        got = self._fp.read(n)
+        if not isinstance(n, int) or n < 0 or n >= 2 ** 30:
+            self.ev.append({'op': 'other', 'n': 0, 'got': 0, 'pos': pos, 'off': 0, 'sec': 'read(%r)' % (n,)})
+        else:
+            self.ev.append({'op': 'read', 'n': n, 'got': len(got), 'pos': pos, 'off': 0, 'sec': ''})
+        return got
+
+    def seek(self, off, whence=0):
+        r = self._fp.seek(off, whence)
+        self._e('seek', n=whence, off=off)
+        return r
+
+    def tell(self):
+        return self._fp.tell()
+
+    def __getattr__(self, name):
+        self._e('other', sec=name)
+        return getattr(self._fp, name)
+
+
+def io_trace(tid, data, reader_factory=None, limit_s=10):
+    """The read/seek/yield log of the real reader over data."""
+    from pydiffx import DiffXReader
+    from pydiffx.errors import DiffXParseError
+    fp = IOLog(data)
+    end = 'done'
+    old = signal.signal(signal.SIGALRM, _alarm)
+    signal.setitimer(signal.ITIMER_REAL, limit_s)
+    try:
+        rd = (reader_factory or DiffXReader)(fp)
+        for r in rd:
+            fp._e('yield', sec=str(r.get('section')))
+    except DiffXParseError:
+        end = 'parse'
+    except _Timeout:
+        end = 'timeout'
+    except Exception as e:           # noqa
+        end = 'other:' + type(e).__name__
+    finally:
+        signal.setitimer(signal.ITIMER_REAL, 0)
+        signal.signal(signal.SIGALRM, old)
+    return {'id': tid, 'stream': bl(data), 'end': end, 'ev': fp.ev}
